@@ -24,6 +24,7 @@ import (
 	"golang.org/x/mod/semver"
 	"verif.local/sim/simcheck"
 	"verif.local/sim/simrt"
+	"verif.local/sim/simsync"
 )
 
 // ---------------------------------------------------------------- universe
@@ -67,6 +68,7 @@ type e4Scenario struct {
 	Root     []e4Req     `json:"root"`
 	Ops      []e4Op      `json:"ops,omitempty"`
 	Faults   bool        `json:"faults,omitempty"`
+	Procs    int         `json:"concurrent_processes,omitempty"` // C10: this many resolvers share one cold cache at the same time
 	Strategy int         `json:"strategy"`
 	Sticky   int         `json:"sticky"`
 	PCTDepth int         `json:"pct_depth"`
@@ -82,8 +84,9 @@ type e4Revision struct {
 	id     string
 	when   time.Time
 	parent *e4Revision
-	sub    string
-	proj   *e4Version
+	// projects is the repository's content at this revision: for every sub-path, the
+	// project file of the latest version committed so far
+	projects map[string]*e4Version
 }
 
 func (r *e4Revision) ID() string       { return r.id }
@@ -166,19 +169,20 @@ func (r *e4Repository) FetchRevision(ctx context.Context, projectPath string, re
 		return err
 	}
 	rev := revision.(*e4Revision)
-	if rev.proj == nil || rev.sub != projectPath {
+	proj, ok := rev.projects[projectPath]
+	if !ok {
 		return errors.New("no such project")
 	}
 	// The checkout itself is the stub's business: it is written with the real os package
 	// (no injected I/O faults, no torn files); a failing fetch is the injected error above.
 	var sb strings.Builder
-	if rev.proj.Name != "" {
-		fmt.Fprintf(&sb, "name = %q\n", rev.proj.Name)
+	if proj.Name != "" {
+		fmt.Fprintf(&sb, "name = %q\n", proj.Name)
 	}
-	fmt.Fprintf(&sb, "version = %q\n", rev.proj.Version)
-	if len(rev.proj.Reqs) > 0 {
+	fmt.Fprintf(&sb, "version = %q\n", proj.Version)
+	if len(proj.Reqs) > 0 {
 		sb.WriteString("\n[requirements]\n")
-		for i, d := range rev.proj.Reqs {
+		for i, d := range proj.Reqs {
 			fmt.Fprintf(&sb, "r%d = {path = %q, version = %q}\n", i, d.Path, d.Version)
 		}
 	}
@@ -186,7 +190,19 @@ func (r *e4Repository) FetchRevision(ctx context.Context, projectPath string, re
 	if err := os.MkdirAll(dir, 0700); err != nil {
 		return err
 	}
-	return os.WriteFile(filepath.Join(dir, "dawn.toml"), []byte(sb.String()), 0644)
+	// create/truncate, then (another process may run here) write
+	f, err := os.Create(filepath.Join(dir, "dawn.toml"))
+	if err != nil {
+		return err
+	}
+	if r.w.sim != nil {
+		r.w.sim.Yield("vcs.checkout", projectPath)
+	}
+	_, err = f.WriteString(sb.String())
+	if cerr := f.Close(); err == nil {
+		err = cerr
+	}
+	return err
 }
 
 type e4Dialer struct {
@@ -223,7 +239,13 @@ func (w *e4World) dialer() *e4Dialer {
 			for vi := range p.Versions {
 				n++
 				v := &p.Versions[vi]
-				rev := &e4Revision{id: fmt.Sprintf("%02dabcdef%04d", ri, n), when: time.Unix(int64(1000*n), 0).UTC(), parent: repo.head, sub: p.Sub, proj: v}
+				rev := &e4Revision{id: fmt.Sprintf("%02dabcdef%04d", ri, n), when: time.Unix(int64(1000*n), 0).UTC(), parent: repo.head, projects: map[string]*e4Version{}}
+				if repo.head != nil {
+					for k, pv := range repo.head.projects {
+						rev.projects[k] = pv
+					}
+				}
+				rev.projects[p.Sub] = v
 				repo.head = rev
 				repo.revs[rev.id] = rev
 				tag := v.Version
@@ -251,6 +273,24 @@ func (w *e4World) dialer() *e4Dialer {
 // ---------------------------------------------------------------- the model
 
 func (sc *e4Scenario) lookup(p, v string) *e4Version {
+	if module.IsPseudoVersion(v) {
+		// a pseudo-version names a revision: the project file is whatever the repository
+		// holds for the project's sub-path at that revision
+		rev, err := module.PseudoVersionRev(v)
+		if err != nil {
+			return nil
+		}
+		w := &e4World{sc: sc, hit: map[string]int{}}
+		for pi := range sc.Projects {
+			if sc.Projects[pi].path(sc) == p {
+				repo := w.dialer().repos[sc.Repos[sc.Projects[pi].Repo].Addr]
+				if r, ok := repo.revs[rev]; ok {
+					return r.projects[sc.Projects[pi].Sub]
+				}
+			}
+		}
+		return nil
+	}
 	for pi := range sc.Projects {
 		pr := &sc.Projects[pi]
 		if pr.path(sc) != p {
@@ -327,6 +367,14 @@ func e4GenUniverse(r *rand.Rand, tier string) *e4Scenario {
 		}
 		sc.Repos = append(sc.Repos, e4Repo{Addr: addr})
 	}
+	// a repository nested below a project directory of another (non-GitHub) repository: the
+	// project path belongs to the repository with the longest address
+	for i := 0; i < nr; i++ {
+		if strings.HasPrefix(sc.Repos[i].Addr, "host") && r.IntN(3) == 0 {
+			sc.Repos = append(sc.Repos, e4Repo{Addr: sc.Repos[i].Addr + fmt.Sprintf("/sub%d/nested", r.IntN(4))})
+		}
+	}
+	nr = len(sc.Repos)
 	np := 2 + r.IntN(5)
 	if tier == "thorough" {
 		np = 2 + r.IntN(7)
@@ -407,6 +455,9 @@ func e4GenUniverse(r *rand.Rand, tier string) *e4Scenario {
 func c10Gen(r *rand.Rand, tier string) any {
 	sc := e4GenUniverse(r, tier)
 	sc.Faults = r.IntN(4) == 0
+	if !sc.Faults && r.IntN(4) == 0 {
+		sc.Procs = 2 + r.IntN(2)
+	}
 	// rarely, a requirement that names a version that does not exist
 	if r.IntN(20) == 0 && len(sc.Projects) > 0 {
 		p := &sc.Projects[r.IntN(len(sc.Projects))]
@@ -473,6 +524,34 @@ func (e *e4Run) call(cache string, faults bool, f func(res *Resolver) error) (*s
 	})
 	e.c.Sim(s, simcheck.ScenarioHash(e.sc), e.sc.Strategy)
 	return s, w, err
+}
+
+// callN runs n resolvers (as n dawn processes would) concurrently on one cache.
+func (e *e4Run) callN(cache string, n int, f func(i int, res *Resolver)) (*simrt.Sim, *e4World, error) {
+	e.round++
+	name := fmt.Sprintf("call%d", e.round)
+	ts := e.c.Tapes
+	cfg := simrt.Config{Sched: ts.Get(name + ".sched"), Misc: ts.Get(name + ".misc"), Fault: ts.Get(name + ".fault"), Strategy: e.sc.Strategy,
+		StickyNum: e.sc.Sticky, PCTDepth: e.sc.PCTDepth, PCTEst: 800, TempDir: filepath.Join(e.dir, "tmp"), MaxSteps: 600000}
+	if e.c.Trace {
+		cfg.TraceMax = 3000
+	}
+	s := simrt.New(cfg)
+	w := &e4World{sc: e.sc, sim: s, hit: map[string]int{}}
+	s.Run(func() {
+		var wg simsync.WaitGroup
+		for i := 0; i < n; i++ {
+			i := i
+			wg.Add(1)
+			simrt.Go(func() {
+				defer wg.Done()
+				f(i, NewResolver(filepath.Join(e.dir, cache), w.dialer(), nil))
+			})
+		}
+		wg.Wait()
+	})
+	e.c.Sim(s, simcheck.ScenarioHash(e.sc), e.sc.Strategy)
+	return s, w, nil
 }
 
 func simFailure(s *simrt.Sim) *simcheck.Violation {
@@ -567,6 +646,35 @@ func c10Exec(scAny any, c *simcheck.Ctx) *simcheck.Violation {
 			return v
 		}
 		return nil
+	}
+	if sc.Procs > 1 {
+		// several dawn processes resolving the same requirements against one cold cache
+		results := make([]map[string]string, sc.Procs)
+		errs := make([]error, sc.Procs)
+		s, _, _ := e.callN("cacheC", sc.Procs, func(i int, res *Resolver) {
+			results[i], errs[i] = BuildList(context.Background(), sc.config(sc.Root), res)
+		})
+		if v := simFailure(s); v != nil {
+			v.Msg = "concurrent processes on one cold cache: " + v.Msg
+			return v
+		}
+		c.St.Count("concurrent_resolutions", 1)
+		for i := range results {
+			if errs[i] != nil {
+				if !resolvable {
+					continue
+				}
+				return simcheck.V("buildlist-error", "%d processes resolving against one cold cache: process %d failed although every reachable requirement exists and no fault was injected: %v", sc.Procs, i, errs[i])
+			}
+			if !resolvable {
+				return simcheck.V("buildlist-accepts-missing", "concurrent processes: a reachable requirement names a version that does not exist, yet resolution succeeded")
+			}
+			if mapString(results[i]) != mapString(want) {
+				return simcheck.V("buildlist-wrong", "%d processes resolving against one cold cache: process %d resolved {%s}, not the minimal-version-selection solution {%s}", sc.Procs, i, mapString(results[i]), mapString(want))
+			}
+		}
+		// the cache they left behind must serve a later process correctly
+		return check("warm cache left by concurrent processes", sc.Root, "cacheC", false)
 	}
 	if v := check("cold cache", sc.Root, "cache1", false); v != nil {
 		return v
@@ -682,7 +790,9 @@ func c11Gen(r *rand.Rand, tier string) any {
 			pth := p.path(sc)
 			v := p.Versions[r.IntN(len(p.Versions))].Version
 			var q string
-			switch r.IntN(11) {
+			switch r.IntN(13) {
+			case 11, 12:
+				q = pth + "@main"
 			case 0:
 				q = pth
 			case 1:
